@@ -454,7 +454,10 @@ def check(prog, rep, tier):
             continue
         want = ("call", ("g", "int"), (("bin", "*", ("bin", "*", C(-1), ("bin", "/", fl(m), fl(k))),
                                          ("call", ("ext", "math", "log"), (("bin", "-", C(1), ("bin", "/", fl(X), fl(m))),), ())),), ())
-        d = first_diff(canon(want), canon(rv))
+        from ..expr import mapx
+        # float(x) / float(y) and x / y are the same true division for the integer geometry fields and counts
+        nofl = lambda v_: mapx(strip_epochs(v_), lambda n: n[2][0] if (n[0] == "call" and n[1] == ("g", "float") and len(n[2]) == 1 and n[2][0][0] in ("f", "ret", "hv", "p")) else None)  # noqa: E731
+        d = first_diff(canon(norm(nofl(want))), canon(norm(nofl(rv))))
         if d is not None:
             rep.bad("C14.bloom-statistics", f"{ctx}.estimate_elements", f"estimate {nshow(rv)}", f"the estimate is {nshow(rv)}, not int(-(m/k) ln(1 - X/m)) ({d[1]} differs)", f.where(p.exit[2]))
             okst = False
